@@ -10,8 +10,8 @@ import warnings
 from . import formats_common as fc
 from .common import Oracle, Suite, errname, merge
 
-GEN_UNITS = ["Contexts", "B64", "Handlers", "PyUnicode", "PyCase", "StaticFmt", "Disabled", "Registry", "ContextPolicy"]
-LEAN_TARGETS = ["PasslibVerif.Props.C17"]
+GEN_UNITS = ["Contexts", "B64", "Handlers", "PyUnicode", "PyCase", "StaticFmt", "Disabled", "Registry", "ContextPolicy", "RegistryTables"]
+LEAN_TARGETS = ["PasslibVerif.Props.C17", "PasslibVerif.Props.C17Registry"]
 ASSUMPTIONS = [
     "the format models behind the shapes are the real hashers' from_string / to_string / identify: checked by ./check C07 and, for identify of all 76 registered names, again here",
     "a hash string emitted by a hasher is the rendering of well-formed settings (the family's WF predicate): checked here on every generated hash through the output-shape membership",
@@ -440,7 +440,12 @@ def correspond(ctx):
     registry_oracle(o_reg)
     for tag, inp, ok, obs, exp in itertools.chain(preset_extra_cases(), boundary_password_cases()):
         o_ctx.check(tag, ok, inp, obs, exp)
-    return merge(s_id, s_sh, s_out, s_at, o_ctx, o_reg)
+    # the registry itself as a state machine (register / lazy load / proxy) against the real passlib.registry: Model.Registry (suite `preg`)
+    from . import c17_registry
+
+    s_reg = Suite(ctx, "registry-model")
+    c17_registry.model_suite(ctx, s_reg)
+    return merge(s_id, s_sh, s_out, s_at, o_ctx, o_reg, s_reg)
 
 
 def search(ctx, broken, seeds):
